@@ -110,8 +110,26 @@ func (c *Cluster) handleOffsetForLeaderEpoch(creq *clientReq) (kmsg.Response, er
 			nextEpoch := rp.LeaderEpoch + 1
 			si, mi, cur := pd.findBatchMeta(int64(nextEpoch), func(m *batchMeta) int64 { return int64(m.epoch) })
 
-			// Requested epoch is not yet known: keep -1 returns.
 			if cur == nil {
+				// No batch was written after the requested epoch.
+				// If the requested epoch is older than our current
+				// epoch, it ended where the current epoch began: a
+				// real leader caches its epoch's start offset (the
+				// log end offset) on election, before any append.
+				// We return the epoch of the last batch, which is
+				// the largest epoch in the log at or below the
+				// requested one, and the log end offset.
+				if rp.LeaderEpoch < pd.epoch {
+					for i := len(pd.segments) - 1; i >= 0; i-- {
+						if idx := pd.segments[i].index; len(idx) > 0 {
+							sp.LeaderEpoch = idx[len(idx)-1].epoch
+							break
+						}
+					}
+					sp.EndOffset = pd.highWatermark
+					continue
+				}
+				// Requested epoch is not yet known: keep -1 returns.
 				sp.LeaderEpoch = -1
 				sp.EndOffset = -1
 				continue
